@@ -51,7 +51,7 @@ fn op_from(v: &Value) -> Op {
     }
 }
 fn cfg_json(c: &Cfg) -> Value {
-    json!({"flavour": c.flavour.name(), "policy": c.policy.name(), "limit": c.limit, "ttl": c.ttl, "max_memory": c.max_memory, "fw": c.fw})
+    json!({"flavour": c.flavour.name(), "policy": c.policy.name(), "limit": c.limit, "ttl": c.ttl, "max_memory": c.max_memory, "fw": c.fw, "age_exact": c.age_exact})
 }
 fn cfg_from(v: &Value) -> Cfg {
     Cfg {
@@ -65,6 +65,7 @@ fn cfg_from(v: &Value) -> Cfg {
         ttl: v["ttl"].as_u64(),
         max_memory: v["max_memory"].as_u64().map(|x| x as usize),
         fw: v["fw"].as_f64(),
+        age_exact: v["age_exact"].as_bool().unwrap_or(false),
     }
 }
 
@@ -80,7 +81,7 @@ fn all_configs() -> Vec<Cfg> {
                     for mem in [None, Some(MEMS[0]), Some(MEMS[1]), Some(MEMS[2])] {
                         let fws: &[Option<f64>] = if policy == Policy::Tlru { &FWS } else { &FWS[..1] };
                         for fw in fws {
-                            v.push(Cfg { flavour, policy, limit, ttl, max_memory: mem, fw: *fw });
+                            v.push(Cfg { flavour, policy, limit, ttl, max_memory: mem, fw: *fw, age_exact: false });
                         }
                     }
                 }
@@ -98,7 +99,7 @@ fn key_of(s: &str) -> Option<Key> {
 }
 
 /// Generates a history for `cfg`.
-fn gen_history(cfg: &Cfg, rng: &mut Rng, next_id: &mut u64) -> Vec<Op> {
+fn gen_history(cfg: &Cfg, rng: &mut Rng, next_id: &mut u64) -> (Vec<Op>, bool) {
     let cap = cfg.limit.unwrap_or(if cfg.max_memory.is_some() { 4 } else { 3 });
     let alphabet = cap + 1 + rng.usize(3);
     let len = 40 + rng.usize(160);
@@ -137,7 +138,7 @@ fn gen_history(cfg: &Cfg, rng: &mut Rng, next_id: &mut u64) -> Vec<Op> {
             let k = rng.skewed(alphabet) as Key;
             *next_id += 1;
             let (variant, target, slack) = match cfg.max_memory {
-                None => (if rng.chance(3, 4) { 0 } else { 1 + rng.usize(8) }, 40 + rng.usize(60), if rng.chance(1, 4) { rng.usize(16) } else { 0 }),
+                None => (if rng.chance(3, 4) { 0 } else { 1 + rng.usize(15) }, 40 + rng.usize(60), if rng.chance(1, 4) { rng.usize(16) } else { 0 }),
                 Some(m) => {
                     let t = match rng.usize(10) {
                         0 => m + 1 + rng.usize(m),
@@ -149,7 +150,7 @@ fn gen_history(cfg: &Cfg, rng: &mut Rng, next_id: &mut u64) -> Vec<Op> {
                         7 => m / 4 + rng.usize(8),
                         _ => 40 + rng.usize(m / 2),
                     };
-                    let variant = if t >= 110 { 1 + rng.usize(8) } else { [1usize, 2, 4, 5, 7, 8][rng.usize(6)] };
+                    let variant = if t >= 150 { 1 + rng.usize(15) } else if t >= 110 { [1usize, 2, 3, 4, 5, 6, 7, 8, 10, 11, 13, 15][rng.usize(12)] } else { [1usize, 2, 4, 5, 7, 8, 10][rng.usize(7)] };
                     (variant, t, if rng.chance(1, 3) { rng.usize(24) } else { 0 })
                 }
             };
@@ -170,7 +171,7 @@ fn gen_history(cfg: &Cfg, rng: &mut Rng, next_id: &mut u64) -> Vec<Op> {
     for k in 0..alphabet {
         ops.push(Op::Get(k as Key));
     }
-    ops
+    (ops, aligned)
 }
 
 struct Ctx<'a> {
@@ -566,7 +567,10 @@ fn main() {
         let mut sampled = false;
         for h in 0..per_cfg {
             let mut r = rng.fork(h as u64);
-            let ops = gen_history(cfg, &mut r, &mut next_id);
+            let (ops, aligned) = gen_history(cfg, &mut r, &mut next_id);
+            let mut cfg_h = *cfg;
+            cfg_h.age_exact = aligned;
+            let cfg = &cfg_h;
             let mut ctx = Ctx { rep: &mut rep, cfg_index: ci, seed };
             let ok = run_history(&mut ctx, cfg, &ops, h as u64, false);
             if ok && !sampled && visited % 8 == 1 && h >= 1 {
